@@ -70,7 +70,9 @@ def gen_program(rng, gen, allow_raise=True, big=False):
     raise_at = None
     if allow_raise and rng.random() < 0.35:
         raise_at = rng.randrange(len(stmts) + 1)
-        stmts.insert(raise_at, ("raise", rng.choice(("ValueError", "KeyError", "RuntimeError")), f"dsl-raise-{rng.randrange(10**6)}"))
+        # (the failing statement may sit many frames below the top level of the program)
+        stmts.insert(raise_at, ("raise", rng.choice(("ValueError", "KeyError", "RuntimeError", "GeneratorExit", "BaseException")), f"dsl-raise-{rng.randrange(10**6)}",
+                                rng.choice((0, 0, 0, 3, 40, 120))))
     return {"stmts": stmts, "kwargs": kwargs}
 
 
@@ -127,8 +129,17 @@ def render_lines(prog, indent=""):
             L.append(f"_c.send(('sub', {st[1]}))")
             L.append("_c.close()")
         elif kind == "raise":
-            raise_line = len(L)
-            L.append(f"raise {st[1]}({st[2]!r})")
+            depth = st[3] if len(st) > 3 else 0
+            if depth:
+                L.append("def _deep(n):")
+                L.append("    if n <= 0:")
+                raise_line = len(L)
+                L.append(f"        raise {st[1]}({st[2]!r})")
+                L.append("    return _deep(n - 1)")
+                L.append(f"_deep({depth})")
+            else:
+                raise_line = len(L)
+                L.append(f"raise {st[1]}({st[2]!r})")
     L.append("channel.send('__final__')")
     return [indent + l for l in L], raise_line
 
